@@ -1334,6 +1334,15 @@ class Engine(object):
       log.info("Failed to apply useractions; reverting: %r", e)
       self._undo_to_checkpoint(checkpoint)
 
+      # Reverting may re-create formula columns (e.g. undoing a RemoveColumn), which come back
+      # empty and marked dirty. Recompute them now, so that the engine again matches what is
+      # already stored outside the sandbox, rather than reporting these values as changes made
+      # by whichever call comes next.
+      try:
+        self._bring_all_up_to_date()
+      except Exception:
+        log.error("Error recomputing after revert on failure: %s", traceback.format_exc())
+
       # Check schema consistency again. If this fails, something is really wrong (we tried to go
       # back to a good state but failed). We'll just report it loudly.
       try:
